@@ -12,7 +12,9 @@
 (***************************************************************************)
 EXTENDS CLayoutBits
 
-CONSTANT Variant   \* "code": as transcribed; "floorSize": unit size rounded down (sensitivity self-test)
+CONSTANT Variant   \* "code": as transcribed.  Sensitivity self-tests: "floorSize": unit size rounded
+                   \* down; "moduloSize": the straddle test takes the offset modulo the type's SIZE
+                   \* instead of its ALIGNMENT (differs only for types with align < size)
 
 (* CompInfo::is_packed at the time the units are computed: the attribute, or some member type
    (bit-field or not) more aligned than the record                                          *)
@@ -30,7 +32,7 @@ StepBitfield(r, i, f, coff, packed) ==
       al == Ty[f.ty].align
       sz == Ty[f.ty].size
       start == IF r.unitSize = 0 THEN coff ELSE r.start
-      off == IF ~packed /\ coff # 0 /\ (w = 0 \/ (coff % (al * 8)) + w > sz * 8)
+      off == IF ~packed /\ coff # 0 /\ (w = 0 \/ (coff % ((IF Variant = "moduloSize" THEN sz ELSE al) * 8)) + w > sz * 8)
              THEN AlignTo(coff, al * 8) ELSE coff
   IN [start |-> start,
       maxAlign |-> IF f.named THEN Max(r.maxAlign, al) ELSE r.maxAlign,
